@@ -455,27 +455,41 @@ def strip_none(v):
     return v
 
 
-def run_group(ctx, key, fields, inputs, stats, origin):
+def prepare_group(key, fields, inputs):
+    """the four real parsers and the driver lines of one field list"""
     try:
         parsers, src = build_four(key, fields)
     except Exception as ex:  # noqa: BLE001
         raise MachineryError("the four parsers could not be built for %r: %r" % (fields, ex))
     wf = [{"name": f["name"], "ty": f["ty"], **({"def": base.wire_val(f["def"])} if "def" in f else {})} for f in fields]
     lines = [{"op": "decl", "style": st, "key": key, "fields": wf} for st in STYLES]
-    loads_per = []
     for inp in inputs:
         loads = load_oracle(input_texts(inp))
-        loads_per.append(loads)
         items = model_items(inp, key, fields, loads)
         for st in STYLES:
             lines.append({"op": "parse7", "style": st, "key": key, "fields": wf, "load": loads, "items": items})
+    return parsers, lines
+
+
+def run_groups(ctx, groups, stats, origin):
+    """`groups`: [(key, fields, inputs)]; one driver run for all of them"""
+    prepared = [prepare_group(k, f, i) for k, f, i in groups]
+    lines = [l for _, ls in prepared for l in ls]
     try:
-        out = ctx.driver("Validate", lines)
+        out_all = ctx.driver("Validate", lines) if lines else []
     except MachineryError as ex:
         if ctx.lean_ok:
             raise
         ctx.tie_break("correspondence Validate (C07) not runnable (model does not build)", str(ex)[:500])
-        out = None
+        out_all = None
+    pos = 0
+    for (key, fields, inputs), (parsers, ls) in zip(groups, prepared):
+        out = out_all[pos:pos + len(ls)] if out_all is not None else None
+        pos += len(ls)
+        run_group(ctx, key, fields, inputs, parsers, out, stats, origin)
+
+
+def run_group(ctx, key, fields, inputs, parsers, out, stats, origin):
     # --- tables
     for i, st in enumerate(STYLES):
         ctx.count()
@@ -540,19 +554,26 @@ def run(ctx: Ctx):
     stats = {"violations": 0, "known": 0, "disagree": 0}
     from ..lib import corpus as corpus_mod
 
-    for c in corpus_mod.load(ctx.prop):
-        run_group(ctx, c["key"], c["fields"], c["inputs"], stats, "corpus")
-    n_groups = ctx.budget(40, 500) * (2 if ctx.search_boost > 1 else 1)
+    corp = [(c["key"], c["fields"], c["inputs"]) for c in corpus_mod.load(ctx.prop)]
+    if corp:
+        run_groups(ctx, corp, stats, "corpus")
+    n_groups = ctx.budget(80, 1200) * (2 if ctx.search_boost > 1 else 1)
     n_inputs = ctx.budget(25, 40)
-    for gi in range(n_groups):
-        key = ctx.rng.choice(KEY_POOL)
-        fields = gen_fields(ctx.rng)
-        inputs = [gen_input(ctx.rng, key, fields) for _ in range(n_inputs)]
-        run_group(ctx, key, fields, inputs, stats, "generated")
-        if gi < 3:
-            ctx.sample({"key": key, "fields": fields, "input": inputs[0]})
-        if ctx.elapsed() > ctx.budget(70, 780):
-            ctx.extra["stopped_early_after_groups"] = gi + 1
+    chunk = ctx.budget(20, 50)
+    done = 0
+    for g0 in range(0, n_groups, chunk):
+        groups = []
+        for gi in range(g0, min(g0 + chunk, n_groups)):
+            key = ctx.rng.choice(KEY_POOL)
+            fields = gen_fields(ctx.rng)
+            inputs = [gen_input(ctx.rng, key, fields) for _ in range(n_inputs)]
+            groups.append((key, fields, inputs))
+            if gi < 3:
+                ctx.sample({"key": key, "fields": fields, "input": inputs[0]})
+        run_groups(ctx, groups, stats, "generated")
+        done += len(groups)
+        if ctx.elapsed() > ctx.budget(70, 700) and done < n_groups:
+            ctx.extra["stopped_early_after_groups"] = done
             break
     # --- replay of catalogued findings
     for f in ctx.open_findings():
@@ -565,7 +586,7 @@ def run(ctx: Ctx):
             ctx.known(f["id"], f["description"])
         else:
             ctx.stale_findings.append(f["id"])
-    ctx.extra["field_lists"] = n_groups
+    ctx.extra["field_lists"] = done
     ctx.extra["correspondence_disagreements"] = stats["disagree"]
     ctx.extra["inputs_in_known_class"] = stats["known"]
 
@@ -595,7 +616,7 @@ def replay(ctx: Ctx, body):
     differ = [st for st in STYLES if res[st][0] != ref[0] or (ref[0] == "ok" and res[st][1:] != ref[1:])]
     if any(res[st][0] == "exc" for st in STYLES):
         return 1
-    if differ == ["dotted"] and uses_whole(r["input"], r["key"]):
-        print("difference falls into the open finding class", F_WHOLE)
-        return 1
+    if differ == ["dotted"] and uses_whole(r["input"], r["key"]) and ctx.is_open(F_WHOLE):
+        print("the only difference falls into the open known finding class", F_WHOLE, "(not a new violation)")
+        return 0
     return 1 if differ else 0
